@@ -413,8 +413,8 @@ func (obj *SparseFloat32Vector) Permute(pi []int) error {
     }
   }
   obj.vectorSparseIndex = vectorSparseIndex{}
-  for i := 0; i < len(pi); i++ {
-    obj.indexInsert(pi[i])
+  for i, _ := range obj.values {
+    obj.indexInsert(i)
   }
   return nil
 }
